@@ -3,26 +3,23 @@
 (* The trace specification carries the model of spec/Scrollable.tla along the recorded         *)
 (* history (stored position, pending key, bar state of the rendering on screen) and judges     *)
 (* every rendering and every delivery of input against it.                                     *)
-EXTENDS ScrollableOps, Json, IOUtils
+EXTENDS ScrollableListOps, Json, IOUtils
 
 Traces == JsonDeserialize(IOEnv.TRACE_FILE)
 VARIABLES tid, l, prevp, prevtop, lastp, ok, why,
           stored, pend,     \* model of the position: as in Scrollable.tla
           quiet,            \* no key / set_scrollpos / wheel / click since the last rendering
           nren,             \* renderings so far
-          lastbar, lastw, lasth   \* the rendering on screen: bar drawn, view size
-vars == <<tid, l, prevp, prevtop, lastp, ok, why, stored, pend, quiet, nren, lastbar, lastw, lasth>>
+          lastbar, lastw, lasth,  \* the rendering on screen: bar drawn, view size
+          lastcached,       \* ... and whether it was answered by the canvas cache (a held canvas; no render() ran)
+          lbcfg, lbseen     \* ListBox: <<items, columns, rows>> of the last rendering; <<position, top part>> of the renderings of that content in that view
+vars == <<tid, l, prevp, prevtop, lastp, ok, why, stored, pend, quiet, nren, lastbar, lastw, lasth, lastcached, lbcfg, lbseen>>
 
 Init == /\ tid \in 1..Len(Traces) /\ l = 0 /\ prevp = -1 /\ prevtop = -1 /\ lastp = 0 /\ ok = TRUE /\ why = "-"
         /\ stored = 0 /\ pend = "" /\ quiet = TRUE /\ nren = 0 /\ lastbar = FALSE /\ lastw = 0 /\ lasth = 0
+        /\ lastcached = FALSE /\ lbcfg = <<>> /\ lbseen = <<>>
 
-(* ---- content height of a list of items (ListBox under ScrollBar): <<wrap, n>> = n explicit lines (wrap = 0), or  *)
-(*      n cells wrapped anywhere (wrap = 1)                                                                          *)
-ItemRows(it, cols) == IF it[1] = 1 THEN Max2(1, (it[2] + cols - 1) \div cols) ELSE it[2]
-RECURSIVE SumRowsTo(_, _, _)
-SumRowsTo(items, cols, k) == IF k = 0 THEN 0 ELSE SumRowsTo(items, cols, k - 1) + ItemRows(items[k], cols)
-SumRows(items, cols) == SumRowsTo(items, cols, Len(items))
-
+\* (content height of a list of items <<wrap, n>>, position of a list view: ScrollableListOps)
 \* sizes the wrapped widget was called with: box widgets <<cols, rows>>, flow widgets cols
 BoxSizesOK(calls, drawn, w, h, barw) == \A i \in 1..Len(calls) : calls[i][1] = ChildWidth(drawn, w, barw) /\ calls[i][2] = h
 FlowSizesOK(calls, drawn, w, barw) == \A i \in 1..Len(calls) : calls[i] = ChildWidth(drawn, w, barw)
@@ -47,16 +44,29 @@ RenderVerdict(e) ==
   ELSE "-"
 
 \* e.t = "lbrender": ListBox under ScrollBar; items = <<wrap, n>> per item (the model's own content), p = ListBox.get_scrollpos,
-\*   rmax = ListBox.rows_max for the size it was rendered with, cw = that width
+\*   rmax = ListBox.rows_max for the size it was rendered with, cw = that width, fvp = ListBox.get_first_visible_pos,
+\*   first = <<item, row inside the item>> seen on the top line of the view (<<0, 0>>: not identified, <<-1, -1>>: the lines
+\*   shown are no run of consecutive rows of the items).  The position the clauses speak about is TLC's own: the rows above
+\*   that line, from the item heights of the model (RowsAbove).
+LbExact(e) == Len(e.items) <= 3 * e.h          \* otherwise the bar shows item positions, not rows
+LbSeen(e) == e.first[1] > 0
+LbPos(e) == IF LbSeen(e) THEN RowsAbove(e.items, e.cw, e.first) ELSE e.p
+LbCfg(e) == <<e.items, e.cw, e.h>>
 LbVerdict(e) ==
   LET total == SumRows(e.items, e.w)
-      exactrows == Len(e.items) <= 3 * e.h          \* otherwise the bar shows item positions, not rows
+      exactrows == LbExact(e)
   IN IF e.exc # "" THEN "render_never_raises"
+     ELSE IF e.first[1] < 0 \/ (LbSeen(e) /\ ~FirstOK(e.items, e.cw, e.first)) THEN "listbox_shows_consecutive_rows_of_its_items"
      ELSE IF ~BarDrawnOK(e.bar = 1, total, e.h) THEN "bar_drawn_iff_more_rows_than_view"
      ELSE IF e.bar = 1 /\ ~PartsOK(e.top, e.thumb, e.bottom, e.h) THEN "bar_parts_nonnegative_and_sum_to_height"
      ELSE IF ~BoxSizesOK(e.calls, e.bar = 1, e.w, e.h, e.barw) THEN "child_gets_width_minus_bar"
      ELSE IF exactrows /\ e.rmax # SumRows(e.items, e.cw) THEN "rows_max_is_the_content_height"
-     ELSE IF e.bar = 1 /\ exactrows /\ ~ThumbTopOK(e.top, e.thumb, e.p, e.h) THEN "thumb_leaves_top_iff_scrolled"
+     ELSE IF e.bar = 1 /\ exactrows /\ ~ThumbTopOK(e.top, e.thumb, LbPos(e), e.h) THEN "thumb_leaves_top_iff_scrolled"
+     \* (nofollow = 1: second pass of the driver after a known finding - the rest of the history is judged without this clause)
+     ELSE IF e.bar = 1 /\ exactrows /\ lbcfg = LbCfg(e) /\ Traces[tid].nofollow = 0 /\ ~ThumbFollows(lbseen, LbPos(e), e.top)
+       THEN "thumb_never_moves_up_when_position_increases"
+     ELSE IF LbSeen(e) /\ e.p # LbPos(e) THEN "position_reported_is_rows_scrolled_out_above_the_view"
+     ELSE IF LbSeen(e) /\ e.fvp # e.first[1] - 1 THEN "first_visible_item_reported_is_the_item_on_the_top_line"
      ELSE "-"
 
 \* mouse events: the position is relative to the widget that receives it - the ScrollBar takes its columns off when the bar
@@ -69,10 +79,12 @@ MousePosOK(e) == InChild(e) =>
   /\ \A i \in 1..Len(e.innerpos) : e.innerpos[i][1] = e.col - BarShift(e) /\ e.innerpos[i][2] = e.row + lastp
 
 \* input handed down by the ScrollBar / Scrollable: same width as the rendering on screen
+\* nocsize = 1 (second pass of the driver after a known finding): sizes are not judged while the frame on screen is a cached one
+SizeJudged == ~(lastcached /\ Traces[tid].nocsize = 1)
 InputVerdict(e, fn) ==
   IF e.exc # "" THEN "keypress_never_raises"
-  ELSE IF e.hasbar = 1 /\ ~BoxSizesOK(e.calls, lastbar, lastw, lasth, e.barw) THEN "child_gets_width_minus_bar." \o fn
-  ELSE IF ~FlowSizesOK(e.inner, lastbar, lastw, e.barw) THEN "child_gets_width_minus_bar." \o fn
+  ELSE IF SizeJudged /\ e.hasbar = 1 /\ ~BoxSizesOK(e.calls, lastbar, lastw, lasth, e.barw) THEN "child_gets_width_minus_bar." \o fn
+  ELSE IF SizeJudged /\ ~FlowSizesOK(e.inner, lastbar, lastw, e.barw) THEN "child_gets_width_minus_bar." \o fn
   \* not a sentence of C20 (reported as DIVERGENCE by the driver, which then re-submits the history with nopos = 1)
   ELSE IF fn = "mouse_event" /\ Traces[tid].nopos = 0 /\ ~MousePosOK(e) THEN "mouse_position_relative_to_wrapped_widget"
   ELSE "-"
@@ -111,6 +123,11 @@ Step == /\ ok /\ l < Len(Traces[tid].ev) /\ l' = l + 1 /\ tid' = tid
               /\ lastbar' = IF isr THEN e.bar = 1 ELSE lastbar
               /\ lastw' = IF isr THEN e.w ELSE lastw
               /\ lasth' = IF isr THEN e.h ELSE lasth
+              /\ lastcached' = IF isr THEN e.cached = 1 ELSE lastcached
+              /\ lbcfg' = IF e.t = "lbrender" THEN LbCfg(e) ELSE lbcfg
+              /\ lbseen' = IF e.t # "lbrender" THEN lbseen
+                            ELSE IF e.exc # "" \/ e.bar # 1 \/ ~LbExact(e) THEN <<>>
+                            ELSE IF lbcfg = LbCfg(e) THEN Append(lbseen, <<LbPos(e), e.top>>) ELSE <<<<LbPos(e), e.top>>>>
 Spec == Init /\ [][Step]_vars
 Report == ok \/ PrintT(<<"REJECT", tid, l, why>>)
 ================================================================================
